@@ -11,7 +11,6 @@ Level, honestly: this samples schedules, it does not own the scheduler (see DESI
 """
 import fcntl
 import os
-import shutil
 import subprocess
 import sys
 import time
@@ -316,12 +315,28 @@ def tsan_build(ctx):
         src = driver_source_dir()
         dst = os.path.join(TSAN_DIR, "driver")
         os.makedirs(os.path.join(dst, ".cargo"), exist_ok=True)
-        shutil.rmtree(os.path.join(dst, "src"), ignore_errors=True)
-        shutil.copytree(os.path.join(src, "src"), os.path.join(dst, "src"))
-        for fn in ("Cargo.toml", "Cargo.lock"):
-            shutil.copy(os.path.join(src, fn), os.path.join(dst, fn))
-        with open(os.path.join(dst, ".cargo", "config.toml"), "w") as f:
-            f.write('[net]\noffline = true\n[build]\ntarget-dir = "%s"\n' % os.path.join(TSAN_DIR, "target"))
+        os.makedirs(os.path.join(dst, "src"), exist_ok=True)
+        wanted = {os.path.join("src", fn): os.path.join(src, "src", fn) for fn in os.listdir(os.path.join(src, "src"))}
+        wanted.update({fn: os.path.join(src, fn) for fn in ("Cargo.toml", "Cargo.lock")})
+        for fn in os.listdir(os.path.join(dst, "src")):
+            if os.path.join("src", fn) not in wanted:
+                os.remove(os.path.join(dst, "src", fn))
+        for rel, origin in wanted.items():      # copy only what differs: an unchanged tree must not trigger a relink
+            target = os.path.join(dst, rel)     # (other workers may be running the binary)
+            with open(origin, "rb") as f:
+                data = f.read()
+            old = None
+            if os.path.exists(target):
+                with open(target, "rb") as f:
+                    old = f.read()
+            if old != data:
+                with open(target, "wb") as f:
+                    f.write(data)
+        config = '[net]\noffline = true\n[build]\ntarget-dir = "%s"\n' % os.path.join(TSAN_DIR, "target")
+        cfg_path = os.path.join(dst, ".cargo", "config.toml")
+        if not os.path.exists(cfg_path) or open(cfg_path).read() != config:
+            with open(cfg_path, "w") as f:
+                f.write(config)
         env = dict(os.environ)
         env.update({"RUSTFLAGS": "--cfg dmntk_verif -Zsanitizer=thread", "CFLAGS": "-fsanitize=thread", "CARGO_NET_OFFLINE": "true"})
         cmd = ["cargo", "+nightly", "build", "-Zbuild-std", "--target", "x86_64-unknown-linux-gnu", "--offline", "--release", "--bin", "vdrv"]
@@ -411,7 +426,7 @@ def run_tsan(ctx):
     drv = TsanDriver(binary, log_path)
     part = ctx.p_tsan
     rnd = ctx.rng("tsan")
-    n = ctx.share(ctx.scale(0, 140))
+    n = ctx.share(ctx.scale(0, 600))
     done = 0
     try:
         drv.start()
@@ -507,7 +522,7 @@ def run(ctx):
     if only != "tsan":
         ctx.enumerate(ctx.p_corner, corner_plans(ctx), batch=1, name="every invocable x {2,16} threads in lock step; nested x leaf pairs",
                       exhaustive=True)
-        ctx.forall(ctx.p_stress, ctx.scale(600, 9000), batch=1)
+        ctx.forall(ctx.p_stress, ctx.scale(400, 24000), batch=1)
     if ctx.thorough() and not ctx.stop():
         run_tsan(ctx)
     elif not ctx.thorough():
